@@ -56,14 +56,26 @@ ReadingsAgree == Ph = 0 => LA = LB
 \* ---- implementation-shaped model of calcCueItvls(segStart, segDur, utcStart, cueDur) with 1000 -> Sec
 CueFullS  == (c + Sec - 1) \div Sec
 CueFullMS == CueFullS * Sec
+\* current code (since repo commit 5285868): starts from a UTC second, skips a cue that is over before the segment starts
 RECURSIVE ImplFrom(_)
 ImplFrom(utcS) ==
+   IF utcS * Sec >= U + D THEN <<>>
+   ELSE LET b == TSMax(utcS * Sec, U) - U
+            e == TSMin(utcS * Sec + c, U + D) - U
+        IN (IF e <= b THEN <<>> ELSE << TSCue(b, e, utcS - Base) >>) \o ImplFrom(utcS + CueFullS)
+Impl == ImplFrom((U \div CueFullMS) * CueFullS)
+\* expected to hold: conforming inside the documented range (c <= one second), well-formed for every c
+ImplOKSupported == c <= Sec => Impl \in TSAccepted(Sec, Ph, D, c)
+ImplWellFormed  == TSWellFormed(Impl, D)
+\* expected to be VIOLATED for c > Sec (open finding C12-cue-duration-over-1000: one cue per ceil(c/Sec) seconds)
+ImplConforms    == Impl \in TSAccepted(Sec, Ph, D, c)
+
+\* the algorithm before 5285868 (design counterexamples kept as documentation of the two fixed findings):
+\* the loop variable started as a count of cue periods, expired first cue not skipped
+RECURSIVE ImplOrigFrom(_)
+ImplOrigFrom(utcS) ==
    IF utcS > (U + D) \div CueFullMS \/ utcS * Sec = U + D THEN <<>>
-   ELSE << TSCue(TSMax(utcS * Sec, U) - U, TSMin(utcS * Sec + c, U + D) - U, utcS - Base) >> \o ImplFrom(utcS + CueFullS)
-Impl == ImplFrom(U \div CueFullMS)
-\* expected to hold: inside its documented range (c <= one second) and when the first cue is not expired
-ImplOKSupported == (c <= Sec /\ (Ph = 0 \/ Ph < c)) => Impl \in TSAccepted(Sec, Ph, D, c)
-\* expected to be VIOLATED (design counterexamples, kept as documentation of the two findings)
-ImplConforms   == Impl \in TSAccepted(Sec, Ph, D, c)
-ImplWellFormed == TSWellFormed(Impl, D)
+   ELSE << TSCue(TSMax(utcS * Sec, U) - U, TSMin(utcS * Sec + c, U + D) - U, utcS - Base) >> \o ImplOrigFrom(utcS + CueFullS)
+ImplOrig == ImplOrigFrom(U \div CueFullMS)
+ImplOrigWellFormed == TSWellFormed(ImplOrig, D)
 =============================================================================
